@@ -684,7 +684,7 @@ func (fr *Frame) step(instr ssa.Instruction) int {
 		r.chanSend(ch, fr.get(in.X))
 	case *ssa.Go:
 		r.GoCount++
-		if c := in.Call.StaticCallee(); c != nil && noSpawn[c.Name()] {
+		if c := in.Call.StaticCallee(); c != nil && noSpawn[c.Name()] && !(r.Opts != nil && r.Opts.Background[c.Name()]) {
 			break
 		}
 		if r.Sch != nil && r.Sch.bound >= 0 && r.InInit == 0 && r.SpawnOK {
